@@ -575,7 +575,7 @@ def oracle_case(real, c):
 def replay(ctx, rep):
     import andes
     andes.config_logger(stream_level=50)
-    c = rep['case']
+    c = rep.get('case', rep)       # a corpus file is accepted as well
     if c.get('kind') in ('stock', 'sweep'):
         vneg, vpf = source_variants()
         stock(ctx, c['case'], vneg, vpf)
